@@ -32,6 +32,10 @@
 #include "process.h"            /* struct process */
 #include "signals.h"            /* halt() */
 
+#ifdef KJN_LBZIP2_VERIF
+#include "verif.h"
+#endif
+
 
 /*
   JOB SCHEDULING
@@ -113,6 +117,9 @@ xread(void *vbuf, size_t *vacant)
   do {
     ssize_t rd;
 
+#ifdef KJN_LBZIP2_VERIF
+    verif_perturb();
+#endif
     rd = read(ispec.fd, buffer, *vacant > (size_t)SSIZE_MAX ?
               (size_t)SSIZE_MAX : *vacant);
 
@@ -143,6 +150,9 @@ xwrite(const void *vbuf, size_t size)
     do {
       ssize_t wr;
 
+#ifdef KJN_LBZIP2_VERIF
+      verif_perturb();
+#endif
       wr = write(ospec.fd, buffer, size > (size_t)SSIZE_MAX ?
                  (size_t)SSIZE_MAX : size);
 
@@ -255,6 +265,127 @@ static bool finish;
 unsigned thread_id;
 /* Highest priority runnable task or NULL if there are no runnable tasks. */
 static const struct task *next_task;
+
+#ifdef KJN_LBZIP2_VERIF
+int verif_perturb_on;
+unsigned long verif_perturb_seed;
+int verif_check_on;
+FILE *verif_trace_fp;
+char *verif_delay_script;
+pthread_mutex_t verif_misc_mutex = PTHREAD_MUTEX_INITIALIZER;
+void (*verif_dump_hook)(FILE *);
+void (*verif_check_hook)(void);
+static int verif_is_setup;
+static int verif_next_tid;
+static __thread int verif_tid = -1;
+static __thread unsigned long verif_rng;
+
+static int
+verif_get_tid(void)
+{
+  if (verif_tid < 0) {
+    pthread_mutex_lock(&verif_misc_mutex);
+    verif_tid = verif_next_tid++;
+    pthread_mutex_unlock(&verif_misc_mutex);
+    verif_rng = (verif_perturb_seed + 1) * 2654435761ul +
+      (unsigned long)verif_tid * 40503ul + 12345ul;
+  }
+  return verif_tid;
+}
+
+void
+verif_setup(void)
+{
+  const char *e;
+
+  if (verif_is_setup)
+    return;
+  verif_is_setup = 1;
+  if ((e = getenv("LBZIP2_VERIF_PERTURB")) != NULL && *e) {
+    verif_perturb_on = 1;
+    verif_perturb_seed = strtoul(e, NULL, 10);
+  }
+  if ((e = getenv("LBZIP2_VERIF_DELAY")) != NULL && *e)
+    verif_delay_script = strdup(e);
+  if ((e = getenv("LBZIP2_VERIF_CHECK")) != NULL && *e && *e != '0')
+    verif_check_on = 1;
+  if ((e = getenv("LBZIP2_VERIF_TRACE")) != NULL && *e)
+    verif_trace_fp = fopen(e, "a");
+}
+
+void
+verif_fail(const char *what)
+{
+  fprintf(stderr, "VERIF-ASSERT failed: %s\n", what);
+  fflush(stderr);
+  abort();
+}
+
+void
+verif_perturb(void)
+{
+  unsigned long r;
+
+  if (!verif_perturb_on)
+    return;
+  (void)verif_get_tid();
+  verif_rng ^= verif_rng << 13;
+  verif_rng ^= verif_rng >> 7;
+  verif_rng ^= verif_rng << 17;
+  r = verif_rng >> 11;
+  if (r % 4 == 0)
+    sched_yield();
+  else if (r % 16 == 1) {
+    struct timespec ts;
+    ts.tv_sec = 0;
+    ts.tv_nsec = (long)((r >> 8) % 300000ul);
+    nanosleep(&ts, NULL);
+  }
+}
+
+/* Script: "site:a:b=ms,site:a:b=ms,...".  Each entry fires once. */
+void
+verif_delay(const char *site, unsigned long long a, unsigned long long b)
+{
+  char key[96];
+  char *p;
+  size_t kl;
+  long ms = -1;
+
+  if (verif_delay_script == NULL)
+    return;
+  kl = (size_t)snprintf(key, sizeof key, "%s:%llu:%llu=", site, a, b);
+  pthread_mutex_lock(&verif_misc_mutex);
+  p = verif_delay_script;
+  while ((p = strstr(p, key)) != NULL) {
+    if (p == verif_delay_script || p[-1] == ',') {
+      ms = strtol(p + kl, NULL, 10);
+      p[0] = '#';               /* consume the entry */
+      break;
+    }
+    p++;
+  }
+  pthread_mutex_unlock(&verif_misc_mutex);
+  if (ms > 0) {
+    struct timespec ts;
+    ts.tv_sec = ms / 1000;
+    ts.tv_nsec = (ms % 1000) * 1000000L;
+    nanosleep(&ts, NULL);
+  }
+}
+
+static void
+verif_trace_event(const char *kind, const char *name)
+{
+  if (verif_trace_fp == NULL)
+    return;
+  fprintf(verif_trace_fp, "%s t=%d %s wu=%u os=%u eof=%d", kind,
+          verif_get_tid(), name, work_units, out_slots, (int)eof);
+  if (verif_dump_hook != NULL)
+    verif_dump_hook(verif_trace_fp);
+  fputc('\n', verif_trace_fp);
+}
+#endif /* KJN_LBZIP2_VERIF */
 
 
 static void
@@ -444,6 +575,9 @@ worker_thread_proc(void)
   for (;;) {
     while (next_task != NULL) {
       Trace(("worker[%2u]: scheduling task '%s'...", id, next_task->name));
+#ifdef KJN_LBZIP2_VERIF
+      verif_trace_event("R", next_task->name);
+#endif
       next_task->run();
       select_task();
     }
@@ -468,6 +602,9 @@ static struct thread_entry worker_thread_entry = { worker_thread_proc };
 void
 sched_lock(void)
 {
+#ifdef KJN_LBZIP2_VERIF
+  verif_perturb();
+#endif
   xlock(&sched_mutex);
 }
 
@@ -481,7 +618,17 @@ sched_unlock(void)
   if (next_task != NULL || process->finished())
     xsignal(&sched_cond);
 
+#ifdef KJN_LBZIP2_VERIF
+  VERIF_ASSERT(work_units <= num_worker);
+  VERIF_ASSERT(out_slots <= total_out_slots);
+  if (verif_check_on && verif_check_hook != NULL)
+    verif_check_hook();
+  verif_trace_event("U", next_task != NULL ? next_task->name : "-");
+#endif
   xunlock(&sched_mutex);
+#ifdef KJN_LBZIP2_VERIF
+  verif_perturb();
+#endif
 }
 
 
@@ -526,6 +673,9 @@ primary_thread(void)
 
   process->init();
   select_task();
+#ifdef KJN_LBZIP2_VERIF
+  verif_trace_event("I", "init");
+#endif
   init_io();
 
   for (i = 1u; i < num_worker; ++i)
@@ -539,6 +689,15 @@ primary_thread(void)
   uninit_io();
   process->uninit();
 
+#ifdef KJN_LBZIP2_VERIF
+  VERIF_ASSERT(eof);
+  VERIF_ASSERT(in_slots == total_in_slots);
+  VERIF_ASSERT(out_slots == total_out_slots);
+  VERIF_ASSERT(work_units == num_worker);
+  verif_trace_event("F", "term");
+  if (verif_trace_fp != NULL)
+    fflush(verif_trace_fp);
+#endif
   assert(eof);
   assert(in_slots == total_in_slots);
   assert(out_slots == total_out_slots);
@@ -643,6 +802,25 @@ set_memory_constraints(void)
     in_granul = 32768u;
     out_granul = 900000u;
   }
+#ifdef KJN_LBZIP2_VERIF
+  if (decompress) {
+    const char *e;
+
+    if ((e = getenv("LBZIP2_VERIF_IN_GRANUL")) != NULL && *e) {
+      in_granul = strtoul(e, NULL, 10);
+      in_granul = in_granul < 4 ? 4 : in_granul / 4 * 4;
+    }
+    if ((e = getenv("LBZIP2_VERIF_OUT_GRANUL")) != NULL && *e) {
+      out_granul = strtoul(e, NULL, 10);
+      if (out_granul < 1)
+        out_granul = 1;
+    }
+    if ((e = getenv("LBZIP2_VERIF_IN_SLOTS")) != NULL && *e)
+      total_in_slots = strtoul(e, NULL, 10);
+    if ((e = getenv("LBZIP2_VERIF_OUT_SLOTS")) != NULL && *e)
+      total_out_slots = strtoul(e, NULL, 10);
+  }
+#endif
 }
 
 
@@ -655,6 +833,9 @@ work(void)
          ispec.sep, ospec.sep, ospec.fmt, ospec.sep);
   }
 
+#ifdef KJN_LBZIP2_VERIF
+  verif_setup();
+#endif
   set_memory_constraints();
 
   if (!decompress) {
